@@ -120,6 +120,13 @@ class Flip(AbstractBijection):
         return jnp.flip(y), jnp.array(0)
 
 
+def _bool_mask_to_indices(idxs):
+    # Boolean masks cannot be traced (e.g. under jit): store the equivalent integer indices.
+    if getattr(idxs, "dtype", None) == bool and getattr(idxs, "ndim", 0) > 0:
+        return tuple(jnp.asarray(i) for i in np.nonzero(np.asarray(idxs)))
+    return idxs
+
+
 class Partial(AbstractBijection):
     """Applies bijection to specific indices of an input.
 
@@ -132,7 +139,7 @@ class Partial(AbstractBijection):
     """
 
     bijection: AbstractBijection
-    idxs: int | slice | Array | tuple
+    idxs: int | slice | Array | tuple = eqx.field(converter=_bool_mask_to_indices)
     shape: tuple[int, ...]
 
     def __check_init__(self):
